@@ -2951,13 +2951,10 @@ namespace detail {
                 auto result = context.create_json(json_array_arg);
                 for (auto& item : val.object_range())
                 {
-                    if (!item.value().is_null())
+                    reference j = this->apply_expressions(item.value(), context, ec);
+                    if (!j.is_null())
                     {
-                        reference j = this->apply_expressions(item.value(), context, ec);
-                        if (!j.is_null())
-                        {
-                            result->emplace_back(const_json_ptr_arg, &j);
-                        }
+                        result->emplace_back(const_json_ptr_arg, &j);
                     }
                 }
                 return *result;
@@ -2982,13 +2979,10 @@ namespace detail {
                 auto result = context.create_json(json_array_arg);
                 for (reference item : val.array_range())
                 {
-                    if (!item.is_null())
+                    reference j = this->apply_expressions(item, context, ec);
+                    if (!j.is_null())
                     {
-                        reference j = this->apply_expressions(item, context, ec);
-                        if (!j.is_null())
-                        {
-                            result->emplace_back(const_json_ptr_arg, &j);
-                        }
+                        result->emplace_back(const_json_ptr_arg, &j);
                     }
                 }
                 return *result;
@@ -3121,25 +3115,19 @@ namespace detail {
                     {
                         for (reference elem : current_elem.array_range())
                         {
-                            if (!elem.is_null())
+                            reference j = this->apply_expressions(elem, context, ec);
+                            if (!j.is_null())
                             {
-                                reference j = this->apply_expressions(elem, context, ec);
-                                if (!j.is_null())
-                                {
-                                    result->emplace_back(const_json_ptr_arg, &j);
-                                }
+                                result->emplace_back(const_json_ptr_arg, &j);
                             }
                         }
                     }
                     else
                     {
-                        if (!current_elem.is_null())
+                        reference j = this->apply_expressions(current_elem, context, ec);
+                        if (!j.is_null())
                         {
-                            reference j = this->apply_expressions(current_elem, context, ec);
-                            if (!j.is_null())
-                            {
-                                result->emplace_back(const_json_ptr_arg, &j);
-                            }
+                            result->emplace_back(const_json_ptr_arg, &j);
                         }
                     }
                 }
